@@ -136,7 +136,7 @@ class IMAPConnection:
     """
 
     _lines = re.compile(r'\r?\n')
-    _literal_plus = re.compile(br'{(\d{1,20})\+}\r?\n$')
+    _literal_plus = re.compile(br'{0*(\d{1,20})\+}\r?\n$')
 
     __slots__ = ['commands', 'config', 'params', 'bad_command_limit',
                  'reader', 'writer', 'pp_reader', 'pp_result']
